@@ -51,6 +51,9 @@ type Faults struct {
 	WriteDelayFn func() time.Duration
 	// StallWritesAt >= 0: from this offset on, writes block until the write deadline / close.
 	StallWritesAt int64
+	// StallAtBoundary: the Write call that covers StallWritesAt accepts nothing at all (the stall begins between two
+	// Write calls - for a batch of frames written one call per frame: exactly on a frame boundary).
+	StallAtBoundary bool
 	// FailSetWriteDeadline: every SetWriteDeadline call fails after this many successes (-1 = never).
 	FailSetWriteDeadlineAfter int
 	// ReadChunk > 0: deliver at most that many bytes per Read to the driver.
@@ -69,25 +72,25 @@ type Conn struct {
 	local, remote net.Addr
 	driverSide    bool
 
-	mu            sync.Mutex
-	rdl, wdl      time.Time
-	rdlCh, wdlCh  chan struct{} // closed & replaced when deadlines change
-	closed        bool
-	peer          *Conn
-	faults        Faults
-	setWDLCalls   int
+	mu           sync.Mutex
+	rdl, wdl     time.Time
+	rdlCh, wdlCh chan struct{} // closed & replaced when deadlines change
+	closed       bool
+	peer         *Conn
+	faults       Faults
+	setWDLCalls  int
 	// recording (driver side)
-	Written       []byte
-	WriteSizes    []int
-	written       int64
-	cut           bool  // a short write / write error was injected
-	stallOver     bool  // the scripted write stall has ended (its deadline passed once)
-	readCount     int64 // bytes read by this end (atomic)
-	CutOffset     int64 // stream offset at which the cut happened
-	BytesAfterCut int64 // bytes the conn accepted after it had returned a short write
+	Written        []byte
+	WriteSizes     []int
+	written        int64
+	cut            bool  // a short write / write error was injected
+	stallOver      bool  // the scripted write stall has ended (its deadline passed once)
+	readCount      int64 // bytes read by this end (atomic)
+	CutOffset      int64 // stream offset at which the cut happened
+	BytesAfterCut  int64 // bytes the conn accepted after it had returned a short write
 	WritesAfterCut int
-	closeOnce     sync.Once
-	OnClose       func()
+	closeOnce      sync.Once
+	OnClose        func()
 }
 
 var connSeq int64
@@ -185,7 +188,7 @@ func (c *Conn) Write(p []byte) (int, error) {
 		if c.faults.StallWritesAt >= 0 && !c.stallOver && start+int64(len(p)) > c.faults.StallWritesAt {
 			// accept the part before the stall point, then block until deadline / close
 			acc := int(c.faults.StallWritesAt - start)
-			if acc < 0 {
+			if acc < 0 || c.faults.StallAtBoundary {
 				acc = 0
 			}
 			c.record(p[:acc])
